@@ -727,7 +727,8 @@ def compare_env(obs_env, renv, check_props=True):
     except Exception as e:
         return "env.data() raises %s: %s" % (type(e).__name__, str(e)[:120])
     names = list(data.keys())
-    if names != list(renv.nodes.keys()):
+    if sorted(names) != sorted(renv.nodes.keys()) or len(names) != len(obs_env.nodes.nodes):
+        # the order of the parameters is not part of the statements, the set of names is
         return "node names %r, expected %r" % (names, list(renv.nodes.keys()))
     real = {n.name: n for n in obs_env.nodes.nodes}
     for p, rn in renv.nodes.items():
@@ -874,7 +875,7 @@ def execute(prog, scratch, base_env=None, api_sources=False, name="verif"):
         out = outcome(run)
         if api:
             text = "".join("add_source(%r)\n" % st["name"] for st in api) + text
-        return out, text
+        return out, text.replace(scratch, "<scratch>")      # the recorded text does not depend on the process id
     finally:
         for path in written:
             try:
